@@ -494,3 +494,9 @@ func init() {
 		return ret(TupleV{&StructV{F: []Val{a[0], a[1]}}, nilIface})
 	}
 }
+
+func init() {
+	stubs[rosmarPath+".verifRevidText"] = func(e *Exec, th *Thread, c *CallCtx, a []Val) StubRes {
+		return ret(bytesOf(e.sprintf(`"%d"`, []Val{a[0]})))
+	}
+}
